@@ -36,14 +36,18 @@ pub fn round_trip<const M: usize>(data: &[u8], nf: &[u8; M], nf_len: usize, e: E
     let i: usize = kani::any();
     let j: usize = kani::any();
     kani::assume(i < M && j < M);
-    let (p, _) = match NtpPacket::deserialize(data, &NoCipher) {
-        Ok(x) => x,
-        Err(_) => return false,
+    let p = match decode(data, &NoCipher) {
+        Outcome::Accepted(p, _) => p,
+        other => {
+            std::mem::forget(other);
+            return false;
+        }
     };
     let mut b1 = [0u8; M];
     let n1 = match encode(&p, &NoCipher, &mut b1) {
         Ok(n) => n,
-        Err(_) => {
+        Err(e) => {
+            std::mem::forget(e);
             assert!(false, "(a) an accepted packet can be encoded again");
             return true;
         }
@@ -54,9 +58,10 @@ pub fn round_trip<const M: usize>(data: &[u8], nf: &[u8; M], nf_len: usize, e: E
             assert!(b1[i] == nf[i], "(b) encoding is the normal form of the input");
         }
     }
-    let (p2, _) = match NtpPacket::deserialize(&b1[..n1], &NoCipher) {
-        Ok(x) => x,
-        Err(_) => {
+    let p2 = match decode(&b1[..n1], &NoCipher) {
+        Outcome::Accepted(p2, _) => p2,
+        other => {
+            std::mem::forget(other);
             assert!(false, "(c) the re-encoded packet is accepted again");
             return true;
         }
@@ -74,6 +79,9 @@ pub fn round_trip<const M: usize>(data: &[u8], nf: &[u8; M], nf_len: usize, e: E
         }
         Err(_) => assert!(false, "(d) the normalised packet can be encoded"),
     }
+    // not dropped: dropping the field vectors dominates symbolic execution and is not under test
+    std::mem::forget(p);
+    std::mem::forget(p2);
     true
 }
 
@@ -110,21 +118,190 @@ pub fn normal_form<const N: usize, const M: usize, const K: usize>(img: &Img<N, 
     nf
 }
 
+/// Round trip of a template image against its normal form.
+fn rt<const N: usize, const M: usize, const K: usize>(img: &Img<N, K>, e: Expect) -> bool {
+    let nf: [u8; M] = normal_form::<N, M, K>(img);
+    round_trip::<M>(&img.buf[..img.len], &nf, img.len, e)
+}
+const FULL: Expect = Expect { check_nf: true, check_eq: true };
+/// NTPv4 field below the RFC 7822 minimum: the encoder pads it (see module comment).
+const PADDED: Expect = Expect { check_nf: false, check_eq: false };
+const KF_EQ: Expect = Expect { check_nf: false, check_eq: true };
+
+const V3C: u8 = 0x1B; // version 3 client
+const V3S: u8 = 0xDC; // leap 3, version 3 server
+const V4C: u8 = 0x23;
+const V4S: u8 = 0xE4;
+const V5Q: u8 = 0x2B;
+const V5R: u8 = 0x6C;
+const T_OTHER: u16 = 0x1234;
+
 // ------------------------------------------------------------------ unstructured
-harness! {
+pharness! {
     #[kani::unwind(8)]
     fn c24_rt_u() {
-        let buf: [u8; 52] = kani::any();
+        let buf: [u8; 56] = kani::any();
         let len: usize = kani::any();
         kani::assume(len <= 52);
         // within 52 bytes only v3/v4 header (+ MAC of 4 bytes) can be accepted: identity
-        let mut nf = [0u8; 52 + SLACK];
-        nf[..52].copy_from_slice(&buf);
-        let acc = round_trip(&buf[..len], &nf, len, Expect { check_nf: true, check_eq: true });
+        let mut nf = [0u8; 56 + SLACK];
+        nf[..56].copy_from_slice(&buf);
+        let acc = round_trip(&buf[..len], &nf, len, FULL);
         let version = (buf[0] >> 3) & 7;
         kani::cover!(acc && len == 48 && version == 3, "v3 header round trip");
         kani::cover!(acc && len == 52 && version == 4, "v4 header + 4-byte MAC round trip");
         kani::cover!(acc && len == 52 && version == 3, "v3 header + 4-byte MAC round trip");
         kani::cover!(!acc && len == 50, "rejected input");
+    }
+}
+
+// ------------------------------------------------------------------ templates
+/// NTPv3/NTPv4 header followed by a MAC of every length (symbolic 0..=28 bytes after the header;
+/// 1..=3 and > 24 are refused): identity.
+pharness! {
+    #[kani::unwind(8)]
+    fn c24_rt_mac() {
+        let mut buf: [u8; 80] = kani::any();
+        let len: usize = kani::any();
+        let v4: bool = kani::any();
+        kani::assume(len >= 48 && len <= 76);
+        buf[0] = if v4 { V4S } else { V3C };
+        // a v4 packet with more than 24 trailing bytes starts an extension field: other template
+        kani::assume(!v4 || len <= 72);
+        let mut nf = [0u8; 80 + SLACK];
+        nf[..80].copy_from_slice(&buf);
+        let acc = round_trip(&buf[..len], &nf, len, FULL);
+        let t = len - 48;
+        assert!(acc == (t == 0 || (t >= 4 && t <= 24)), "header + MAC accepted iff the MAC has 4..=24 bytes");
+        kani::cover!(acc && t == 24 && v4, "v4 + 24-byte MAC");
+        kani::cover!(acc && t == 20 && !v4, "v3 + 20-byte MAC");
+        kani::cover!(acc && t == 5, "odd MAC length");
+        kani::cover!(!acc && t == 25, "too long");
+    }
+}
+
+const fn fld(ty: u16, l: u16) -> F {
+    f(Ty::Is(ty), l, l)
+}
+/// One concrete layout (field types and lengths concrete, see c23.rs), round trip.
+fn one<const N: usize, const M: usize, const K: usize>(b0: u8, v5ctl: Option<(u8, u8)>, fields: [F; K], trailer: usize, e: Expect) -> bool {
+    let img: Img<N, K> = layout(b0, v5ctl, fields, trailer, 0);
+    rt::<N, M, K>(&img, e)
+}
+
+/// NTPv4, fields at least as long as the RFC 7822 minimum (16, last field 28): identity.
+pharness! {
+    #[kani::unwind(34)]
+    fn c24_rt_v4_one() {
+        let a = one::<80, 144, 1>(V4C, None, [fld(T_UID, 28)], 0, FULL);
+        let d = one::<104, 168, 1>(V4S, None, [fld(T_COOKIE, 28)], 24, FULL);
+        let i = one::<88, 152, 1>(V4C, None, [fld(T_DRAFT, 32)], 4, FULL);
+        assert!(a && d && i, "opaque fields: accepted");
+        kani::cover!(a && d && i, "all accepted");
+    }
+}
+pharness! {
+    #[kani::unwind(34)]
+    fn c24_rt_v4_placeholder() {
+        let a = one::<80, 144, 1>(V4C, None, [fld(T_PLACEHOLDER, 28)], 0, FULL);
+        kani::cover!(a, "all-zero placeholder round trip");
+        kani::cover!(!a, "non-zero placeholder refused");
+    }
+}
+pharness! {
+    #[kani::unwind(34)]
+    fn c24_rt_v4_multi() {
+        let a = one::<96, 160, 2>(V4C, None, [fld(T_UID, 16), fld(T_COOKIE, 28)], 0, FULL);
+        let b = one::<116, 180, 2>(V4S, None, [fld(T_OTHER, 20), fld(T_UID, 28)], 16, FULL);
+        let d = one::<112, 176, 3>(V4C, None, [fld(T_UID, 16), fld(T_COOKIE, 16), fld(T_OTHER, 28)], 0, FULL);
+        assert!(a && b && d, "opaque fields: accepted");
+        kani::cover!(a && b && d, "all accepted");
+    }
+}
+/// NTPv4, fields shorter than the RFC 7822 minimum (last field 28, others 16): accepted, can be
+/// encoded, the encoding decodes and is stable; the encoding is *not* the input and the decoded
+/// packet differs (value grew by the padding): see c24_rt_v4_kf_short_field.
+pharness! {
+    #[kani::unwind(34)]
+    fn c24_rt_v4_short() {
+        let e = one::<80, 144, 1>(V4S, None, [fld(T_OTHER, 4)], 24, PADDED);
+        let g = one::<80, 144, 1>(V4C, None, [fld(T_COOKIE, 8)], 20, PADDED);
+        let h = one::<80, 144, 1>(V4C, None, [fld(T_UID, 24)], 4, PADDED);
+        let k = one::<96, 160, 2>(V4C, None, [fld(T_UID, 8), fld(T_UID, 28)], 0, PADDED);
+        assert!(e && g && h && k, "accepted");
+        kani::cover!(e && g && h && k, "all accepted");
+    }
+}
+/// Expected to FAIL on the unchanged tree (candidate finding): same kind of image, strict equality.
+pharness! {
+    #[kani::unwind(34)]
+    fn c24_rt_v4_kf_short_field() {
+        let h = one::<80, 144, 1>(V4C, None, [fld(T_UID, 24)], 4, KF_EQ);
+        kani::cover!(h, "accepted");
+    }
+}
+
+/// NTPv5: draft identification before/after one field, odd lengths: normal form = input with
+/// zeroed padding (and zeroed unused tail of a reference id request).
+pharness! {
+    #[kani::unwind(34)]
+    fn c24_rt_v5_a() {
+        let r4 = one::<100, 164, 2>(V5Q, Some((0, 0)), [DRAFT_F, fld(T_UID, 4)], 0, FULL);
+        let r5 = one::<100, 164, 2>(V5Q, Some((1, 1)), [DRAFT_F, fld(T_COOKIE, 5)], 0, FULL);
+        let r7 = one::<100, 164, 2>(V5R, Some((3, 4)), [DRAFT_F, fld(T_REFID_RESP, 7)], 0, FULL);
+        let r17 = one::<100, 164, 2>(V5Q, Some((0, 1)), [fld(T_OTHER, 17), DRAFT_F], 0, FULL);
+        assert!(r4 && r5 && r7 && r17, "accepted");
+        kani::cover!(r4 && r5 && r7 && r17, "all accepted");
+    }
+}
+pharness! {
+    #[kani::unwind(34)]
+    fn c24_rt_v5_b() {
+        let r8 = one::<100, 164, 2>(V5Q, Some((0, 7)), [DRAFT_F, fld(T_REFID_REQ, 8)], 0, FULL);
+        let r16 = one::<100, 164, 2>(V5Q, Some((2, 2)), [fld(T_REFID_REQ, 16), DRAFT_F], 0, FULL);
+        let r6 = one::<100, 164, 2>(V5R, Some((0, 1)), [DRAFT_F, fld(T_PADDING, 6)], 0, FULL);
+        assert!(r8 && r16 && r6, "accepted");
+        kani::cover!(r8 && r16 && r6, "all accepted");
+    }
+}
+pharness! {
+    #[kani::unwind(34)]
+    fn c24_rt_v5_placeholder() {
+        let a = one::<100, 164, 2>(V5Q, Some((0, 1)), [DRAFT_F, fld(T_PLACEHOLDER, 15)], 0, FULL);
+        kani::cover!(a, "all-zero placeholder round trip");
+    }
+}
+/// NTPv5: second draft identification field with arbitrary ASCII content.
+pharness! {
+    #[kani::unwind(34)]
+    fn c24_rt_v5_draft() {
+        let e = one::<92, 156, 2>(V5Q, Some((0, 1)), [DRAFT_F, fld(T_DRAFT, 10)], 0, FULL);
+        kani::cover!(e, "second draft field");
+        kani::cover!(!e, "non-ASCII second draft field refused");
+    }
+}
+/// NTPv5 draft field alone with the whole header symbolic except the version (leap/flags
+/// normalisation, all header error paths).
+pharness! {
+    #[kani::unwind(34)]
+    fn c24_rt_v5_header() {
+        let mut a: Img<80, 1> = layout(V5Q, None, [DRAFT_F], 0, 0);
+        let b0: u8 = kani::any();
+        kani::assume((b0 >> 3) & 7 == 5);
+        a.buf[0] = b0;
+        let ra = rt::<80, 144, 1>(&a, FULL);
+        kani::cover!(ra && a.buf[15] & 1 == 0 && a.buf[0] >> 6 == 1, "leap normalised for an unsynchronized server");
+        kani::cover!(ra && a.buf[15] & 1 == 1 && a.buf[0] >> 6 == 3, "unknown leap");
+        kani::cover!(ra && a.buf[12] == 3 && a.buf[0] & 7 == 4, "response, smeared timescale");
+        kani::cover!(!ra && a.buf[14] != 0, "reserved flag bits refused");
+    }
+}
+/// Expected to FAIL on the unchanged tree (candidate finding): NTPv5 reference id request whose
+/// payload is not a multiple of four is accepted by the decoder and makes `serialize` panic.
+pharness! {
+    #[kani::unwind(34)]
+    fn c24_rt_v5_kf_refid_req_unaligned() {
+        let r = one::<100, 164, 2>(V5Q, Some((0, 1)), [DRAFT_F, fld(T_REFID_REQ, 6)], 0, FULL);
+        kani::cover!(r, "accepted");
     }
 }
